@@ -2,7 +2,7 @@ use crate::bounding_volume::Aabb;
 use crate::math::{Isometry, Point, Real, UnitVector, Vector};
 use crate::query::visitors::BoundingVolumeIntersectionsVisitor;
 use crate::query::{IntersectResult, PointQuery, SplitResult};
-use crate::shape::{Cuboid, FeatureId, Polyline, Segment, Shape, TriMesh, TriMeshFlags, Triangle};
+use crate::shape::{Cuboid, FeatureId, Polyline, Shape, TriMesh, TriMeshFlags, Triangle};
 use crate::transformation::{intersect_meshes, MeshIntersectionError};
 use crate::utils::{hashmap::HashMap, SortedPair, WBasis};
 use alloc::{vec, vec::Vec};
@@ -165,21 +165,17 @@ impl TriMesh {
                 *intersections_found
                     .entry(SortedPair::new(idx_a, idx_b))
                     .or_insert_with(|| {
-                        let segment = Segment::new(
-                            new_vertices[idx_a as usize],
-                            new_vertices[idx_b as usize],
-                        );
-                        // Intersect the segment with the plane.
-                        if let Some((intersection, _)) = segment
-                            .local_split_and_get_intersection(local_axis, bias, epsilon)
-                            .1
-                        {
-                            new_vertices.push(intersection);
-                            colors.push(0);
-                            (new_vertices.len() - 1) as u32
-                        } else {
-                            unreachable!()
-                        }
+                        // Intersect the edge with the plane. The colors of its endpoints are
+                        // 1 and 2, so they lie strictly on opposite sides of the plane and the
+                        // intersection always exists.
+                        let pa = new_vertices[idx_a as usize];
+                        let pb = new_vertices[idx_b as usize];
+                        let dist_a = pa.coords.dot(local_axis) - bias;
+                        let dist_b = pb.coords.dot(local_axis) - bias;
+                        let intersection = pa + (pb - pa) * (dist_a / (dist_a - dist_b));
+                        new_vertices.push(intersection);
+                        colors.push(0);
+                        (new_vertices.len() - 1) as u32
                     })
             };
 
@@ -474,19 +470,17 @@ impl TriMesh {
                 *intersections_found
                     .entry(SortedPair::new(idx_a, idx_b))
                     .or_insert_with(|| {
-                        let segment =
-                            Segment::new(vertices[idx_a as usize], vertices[idx_b as usize]);
-                        // Intersect the segment with the plane.
-                        if let Some((intersection, _)) = segment
-                            .local_split_and_get_intersection(local_axis, bias, epsilon)
-                            .1
-                        {
-                            new_vertices.push(intersection);
-                            colors.push(0);
-                            new_vertices.len() - 1
-                        } else {
-                            unreachable!()
-                        }
+                        // Intersect the edge with the plane. The colors of its endpoints are
+                        // 1 and 2, so they lie strictly on opposite sides of the plane and the
+                        // intersection always exists.
+                        let pa = vertices[idx_a as usize];
+                        let pb = vertices[idx_b as usize];
+                        let dist_a = pa.coords.dot(local_axis) - bias;
+                        let dist_b = pb.coords.dot(local_axis) - bias;
+                        let intersection = pa + (pb - pa) * (dist_a / (dist_a - dist_b));
+                        new_vertices.push(intersection);
+                        colors.push(0);
+                        new_vertices.len() - 1
                     })
             };
 
